@@ -144,6 +144,13 @@ class _NP:
         return list(x)
 
 
+def _parse_stub(part, type_code):
+    """positional stand-in for parse_data on abstract spans; real bytes (e.g. b"") go to the real function"""
+    if isinstance(part, Span):
+        return part
+    return _A_ORIG[0](part, type_code)
+
+
 class Out(Rows):
     def __getitem__(self, k):
         return self
@@ -152,7 +159,7 @@ class Out(Rows):
 def _mk_array(n, H, L, rpc, m=None, stack=None):
     br = [(720 + i * L + H, 720 + (i + 1) * L) for i in range(n)]
     fs = StubFS({"IMG": 720 + n * L})
-    A.parse_data = lambda part, type_code: part
+    A.parse_data = _parse_stub
     A.np = _NP(stack or (lambda parts, axis=0: Out(stub_stack(parts))))
     arr = A.Array(fs=fs, url="IMG", byte_ranges=br, shape=(n, m if m is not None else (L - H) // 2), dtype="uint16",
                   type_code="IU2", records_per_chunk=rpc)
@@ -170,7 +177,11 @@ def _io_ok(fs, arr, n, L, rows):
     opens = [e for e in fs.log if e[0] == "open"]
     reads = [e for e in fs.log if e[0] == "read"]
     seeks = [e for e in fs.log if e[0] == "seek"]
-    ok = (len(opens) == 1) & (opens[0][1] == "IMG") & (len(reads) == len(touched)) & (len(seeks) == len(touched))
+    ok = (len(opens) <= 1) & (len(reads) == len(touched)) & (len(seeks) == len(touched))
+    if len(touched) > 0:
+        ok = ok & (len(opens) == 1)
+    for e in opens:
+        ok = ok & (e[1] == "IMG")
     size = 720 + n * L
     for e, c in zip(reads, touched):
         lo = 720 + c * rpcn * L
@@ -247,8 +258,8 @@ def _basic_case(n, m, rpc, H, rk, ck):
 
 def basic_slice_ok(start: int, stop: int, H: int) -> bool:
     """
-    pre: -(N + 3) <= start <= N + 3
-    pre: -(N + 3) <= stop <= N + 3
+    pre: -(N + 2) <= start <= N + 2
+    pre: -(N + 2) <= stop <= N + 2
     pre: 0 < H
     post: _
     """
@@ -260,7 +271,7 @@ def basic_slice_ok(start: int, stop: int, H: int) -> bool:
 
 def basic_open_slice_ok(bound: int, H: int) -> bool:
     """
-    pre: -(N + 3) <= bound <= N + 3
+    pre: -(N + 2) <= bound <= N + 2
     pre: 0 < H
     post: _
     """
@@ -272,29 +283,67 @@ def basic_open_slice_ok(bound: int, H: int) -> bool:
     return ok
 
 
-def basic_int_ok(k: int, cstart: int, cstop: int, H: int) -> bool:
+def basic_int_ok(cstart: int, cstop: int, H: int) -> bool:
     """
-    pre: 0 <= k < N
-    pre: -(M + 2) <= cstart <= M + 2
-    pre: -(M + 2) <= cstop <= M + 2
+    pre: -(M + 1) <= cstart <= M + 1
+    pre: -(M + 1) <= cstop <= M + 1
     pre: 0 < H
     post: _
     """
-    ok = _basic_case(N, M, RPC, H, k, slice(cstart, cstop))
-    ok = ok & _basic_case(N, M, RPC, H, slice(None), slice(cstart, cstop))
-    for c in range(M):
-        ok = ok & _basic_case(N, M, RPC, H, k, c)
-        ok = ok & _basic_case(N, M, RPC, H, slice(k, None), c)
+    ok = _basic_case(N, M, RPC, H, slice(None), slice(cstart, cstop))
+    for k in sorted({0, N - 1, -1, -N}):
+        ok = ok & _basic_case(N, M, RPC, H, k, slice(cstart, cstop))
     return ok
 
 
-def finding_key_basic_int_ok(k, cstart, cstop, H):
-    return "C02.basic:int-row-key"
+def basic_intcol_ok(H: int) -> bool:
+    """
+    pre: 0 < H
+    post: _
+    """
+    ok = True
+    for c in range(-M, M):
+        for k in range(-N, N):
+            ok = ok & _basic_case(N, M, RPC, H, k, c)
+            ok = ok & _basic_case(N, M, RPC, H, slice(k, None), c)
+            ok = ok & _basic_case(N, M, RPC, H, slice(None, k, 2), c)
+    return ok
 
 
-def finding_key_basic_slice_ok(start, stop, H):
-    n = len(range(N)[slice(start, stop)])
-    return "C02.basic:empty-row-slice" if n == 0 else f"C02.basic:slice({start},{stop})"
+def api_replay_basic_slice_ok(start, stop, H):
+    from vlib import api
+
+    out = [api.indexing(N, M, RPC, slice(start, stop, step), slice(None)) for step in STEPS]
+    return {"reproduced": any(o["reproduced"] for o in out), "runs": out}
+
+
+def api_replay_basic_open_slice_ok(bound, H):
+    from vlib import api
+
+    out = []
+    for step in STEPS:
+        out.append(api.indexing(N, M, RPC, slice(bound, None, step), slice(None)))
+        out.append(api.indexing(N, M, RPC, slice(None, bound, step), slice(0, M, 1)))
+    return {"reproduced": any(o["reproduced"] for o in out), "runs": out}
+
+
+def api_replay_basic_int_ok(cstart, cstop, H):
+    from vlib import api
+
+    out = [api.indexing(N, M, RPC, slice(None), slice(cstart, cstop))]
+    out += [api.indexing(N, M, RPC, k, slice(cstart, cstop)) for k in sorted({0, N - 1, -1, -N})]
+    return {"reproduced": any(o["reproduced"] for o in out), "runs": [o for o in out if o["reproduced"]][:4]}
+
+
+def api_replay_basic_intcol_ok(H):
+    from vlib import api
+
+    out = []
+    for c in range(-M, M):
+        for k in range(-N, N):
+            out += [api.indexing(N, M, RPC, k, c), api.indexing(N, M, RPC, slice(k, None), c), api.indexing(N, M, RPC, slice(None, k, 2), c)]
+    return {"reproduced": any(o["reproduced"] for o in out), "runs": [o for o in out if o["reproduced"]][:4]}
+
 
 
 # ------------------------------------------------------------------------------- open_image -> Array -> load
@@ -344,7 +393,7 @@ def _open_case(n, rpc, H, L, pixels):
     _DFS.DirFileSystem = DirFS
     _patch_io(n, H, L)
     IO.file_descriptor_record = FDStubFull(n, L, n, pixels, TYPE_CODE)
-    A.parse_data = lambda part, type_code: (part, type_code)
+    A.parse_data = lambda part, type_code: (part, type_code) if isinstance(part, Span) else _A_ORIG[0](part, type_code)
     A.np = _NP(lambda parts, axis=0: Out(stub_stack(parts)))
     try:
         group = SI.open_image(mapper, IMGNAME, use_cache=False, create_cache=False, records_per_chunk=rpc)
@@ -383,3 +432,50 @@ def open_ok(H: int, L: int, pixels: int) -> bool:
         for rpc in RPCS:
             ok = ok & _open_case(n, rpc, H, L, pixels)
     return ok
+
+
+def sel_ok(start: int, stop: int) -> bool:
+    """
+    pre: -(N + 2) <= start <= N + 2
+    pre: -(N + 2) <= stop <= N + 2
+    post: _
+    """
+    br = [(100 + 10 * i, 100 + 10 * i + 7) for i in range(N)]
+    ok = True
+    for step in STEPS + [-1, -2]:
+        for key in (slice(start, stop, step), slice(start, None, step), slice(None, stop, step)):
+            got = A.compute_selected_ranges(br, key)
+            ok = ok & (got == [(i, br[i]) for i in range(N)[key]])
+    for k in range(-N, N):
+        ok = ok & (A.compute_selected_ranges(br, k) == [(range(N)[k], br[k])])
+    return ok
+
+
+def api_replay_trunc_ok(H, size):
+    """truncate a synthesised image at the corresponding place and open it through open_alos2"""
+    import os
+
+    import ceos_alos2
+    from vlib import api
+
+    out = []
+    for rpc in RPCS:
+        def run(root, datas, rpc=rpc):
+            name = next(iter(datas))
+            path = os.path.join(root, name)
+            Lreal = 192 + 2 * 5
+            if size < 720:
+                cut = size
+            else:
+                q, r = divmod(size - 720, LREC)
+                cut = 720 + q * Lreal + (0 if r == 0 else min(max(r * Lreal // LREC, 1), Lreal - 1))
+            with open(path, "r+b") as f:
+                f.truncate(cut)
+            try:
+                tree = ceos_alos2.open_alos2(root, backend_options={"use_cache": False, "records_per_chunk": rpc})
+            except Exception as e:  # noqa: BLE001
+                return {"rpc": rpc, "cut": cut, "raised": type(e).__name__, "reproduced": False}
+            return {"rpc": rpc, "cut": cut, "returned_shape": list(tree["imagery/HH/data"].shape), "reproduced": True}
+
+        out.append(api.with_product(run, level="1.5", n=N, p=5, pols=("HH",)))
+    return {"reproduced": any(o["reproduced"] for o in out), "runs": out}
